@@ -129,13 +129,17 @@ Theorem C16_response_writer_found :
   forall w, get_response_writer w = None <-> can_flush w = false.
 Proof. exact get_response_writer_can_flush. Qed.
 
-(* ... preferring, on the first layer that can flush, FlushError (whose errors come back) *)
+(* ... namely the outermost layer of the chain that has any flush method, and flush errors come
+   back exactly when that layer has FlushError (even if it also has a plain Flush) *)
 Theorem C16_response_writer_order :
-  forall fe fl u,
-    get_response_writer (Shape fe fl u) =
-    if fe then Some RWFlushError else if fl then Some RWFlusher
-    else match u with Some w' => get_response_writer w' | None => None end.
-Proof. exact get_response_writer_first. Qed.
+  forall w,
+    get_response_writer w =
+    match find (fun l : bool * bool => fst l || snd l) (chain w) with
+    | Some (true, _) => Some RWFlushError
+    | Some (false, _) => Some RWFlusher
+    | None => None
+    end.
+Proof. exact get_response_writer_chain. Qed.
 
 (* non-vacuity: the first flush fails, the next Send upgrades again and only then writes *)
 Example C16_witness_failed_upgrade :
